@@ -44,14 +44,16 @@ trait StartReceiver: Sized {
     spec fn received(&self) -> Seq<NetworkMessage<Self::Out>>;
     // the upstream replicas this receiver is connected to
     spec fn upstream(&self) -> Set<Coord>;
+    // number of waits made without a timeout so far (ghost; C18)
+    spec fn untimed_waits(&self) -> nat;
     fn recv_timeout(&mut self, timeout: Duration) -> (r: Result<NetworkMessage<Self::Out>, RecvTimeoutError>)
         ensures
-            final(self).upstream() == old(self).upstream(),
+            final(self).upstream() == old(self).upstream(), final(self).untimed_waits() == old(self).untimed_waits(),
             r is Err ==> final(self).received() == old(self).received(),
             r is Ok ==> final(self).received() == old(self).received().push(r->Ok_0) && legal_batch(r->Ok_0, old(self).upstream());
     fn recv(&mut self) -> (r: NetworkMessage<Self::Out>)
         ensures
-            final(self).upstream() == old(self).upstream(),
+            final(self).upstream() == old(self).upstream(), final(self).untimed_waits() == old(self).untimed_waits() + 1,
             final(self).received() == old(self).received().push(r) && legal_batch(r, old(self).upstream());
 }
 spec fn legal_batch<T>(m: NetworkMessage<T>, up: Set<Coord>) -> bool {
@@ -139,6 +141,8 @@ impl<Receiver: StartReceiver + Send> Start<Receiver> {
         // the batch being read comes from a known upstream replica, or is the synthetic FlushBatch of a timeout
         &&& (self.batch_iter matches Some((s, _)) ==> (self.receiver.upstream().contains(s) || self.unread().len() == 0
                 || (self.unread().len() == 1 && self.unread()[0] is FlushBatch)))
+        // after a timeout nothing real is left unread (the synthetic FlushBatch at most)
+        &&& (self.already_timed_out ==> self.unread().len() == 0 || (self.unread().len() == 1 && self.unread()[0] is FlushBatch))
     }
 }
 '''
@@ -233,6 +237,10 @@ impl<Receiver: StartReceiver + Send> Start<Receiver> {
         }
         // C18: a receive timeout is turned into FlushBatch (and only then)
         &&& (fake ==> r is FlushBatch && n.already_timed_out)
+        // C18: with a flush delay configured, the link is waited on WITHOUT a timeout only right after a timeout
+        // (the downstream batchers were just flushed), at most once; whenever data went downstream the next wait is timed
+        &&& (n.max_delay is Some ==> n.receiver.untimed_waits() <= o.receiver.untimed_waits() + (if o.already_timed_out { 1nat } else { 0nat }))   // #obl:start.untimed_wait_only_after_timeout
+        &&& ((r is Item || r is Timestamped || r is Watermark) ==> !n.already_timed_out)                                                      // #obl:start.next_wait_after_data_is_timed
     }
 }
 '''
@@ -298,6 +306,9 @@ LOOP_INV = r'''
                 self.watermark_frontier.front() == old(self).watermark_frontier.front(),
                 fake ==> self.already_timed_out && self.unread() =~= seq![StreamElement::<Receiver::Out>::FlushBatch],
                 fake ==> self.missing_terminate != 0 && self.missing_flush_and_restart != 0,
+                self.max_delay is Some ==> self.receiver.untimed_waits() + (if self.already_timed_out && !fake { 1nat } else { 0nat })
+                    <= old(self).receiver.untimed_waits() + (if old(self).already_timed_out { 1nat } else { 0nat }),   // #obl:start.untimed_wait_only_after_timeout.loop
+                self.receiver.untimed_waits() >= old(self).receiver.untimed_waits(),
 '''
 
 
